@@ -158,7 +158,7 @@ pub fn build() -> Vec<Box<dyn TypeOps>> {
     let mut v: Vec<Box<dyn TypeOps>> = vec![];
     reg!(v;
         ["prim"] bool, ["prim"] u8, ["prim"] u16, ["prim"] u32, ["prim"] u64, ["prim"] i8, ["prim"] i16, ["prim"] i32, ["prim"] i64,
-        ["prim"] f32, ["prim"] f64, ["prim","big"] u128, ["prim","big"] i128, ["prim","big"] Nat, ["prim","big"] Int,
+        ["prim"] f32, ["prim"] f64, ["prim","big","host128"] u128, ["prim","big","host128"] i128, ["prim","big"] Nat, ["prim","big"] Int,
         ["prim"] String, ["prim"] Principal, ["prim"] (), ["prim"] Reserved, ["bytes"] serde_bytes::ByteBuf,
         // options
         ["opt"] Option<bool>, ["opt"] Option<u8>, ["opt","big"] Option<Nat>, ["opt","big"] Option<Int>, ["opt"] Option<String>,
@@ -168,7 +168,7 @@ pub fn build() -> Vec<Box<dyn TypeOps>> {
         ["primvec"] Vec<bool>, ["primvec"] Vec<u8>, ["primvec"] Vec<u16>, ["primvec"] Vec<u32>, ["primvec"] Vec<u64>,
         ["primvec"] Vec<i8>, ["primvec"] Vec<i16>, ["primvec"] Vec<i32>, ["primvec"] Vec<i64>, ["primvec"] Vec<f32>, ["primvec"] Vec<f64>,
         // big-number vectors
-        ["bigvec","big"] Vec<Nat>, ["bigvec","big"] Vec<Int>, ["bigvec","big"] Vec<u128>, ["bigvec","big"] Vec<i128>,
+        ["bigvec","big"] Vec<Nat>, ["bigvec","big"] Vec<Int>, ["bigvec","big","host128"] Vec<u128>, ["bigvec","big","host128"] Vec<i128>,
         // other vectors and sequences
         ["vec"] Vec<String>, ["vec"] Vec<Principal>, ["vec"] Vec<()>, ["vec"] Vec<Reserved>, ["vec"] Vec<Option<u8>>, ["vec","big"] Vec<Option<Nat>>,
         ["vec","primvec"] Vec<Vec<u8>>, ["vec","bigvec","big"] Vec<Vec<Nat>>, ["vec"] Vec<Vec<Vec<u16>>>, ["vec"] Vec<(u8, String)>, ["vec"] Vec<serde_bytes::ByteBuf>,
@@ -204,7 +204,7 @@ pub fn build() -> Vec<Box<dyn TypeOps>> {
         ["tuple","wide"] (u8, u8, u8, u8, u8, u8, u8, u8), ["tuple","wide","big"] (u8, Nat, String, Int, bool, u64, Vec<u8>, Option<u8>, u8, u8, u8, u8, u8, u8, u8, Nat),
         ["tuple","map"] (BTreeMap<String, Nat>, BTreeMap<Int, Nat>), ["tuple"] ((u8, u8), (String, (bool, ()))),
         // bounded vectors
-        ["bounded","primvec"] B8, ["bounded"] B8T, ["bounded"] B8E, ["bounded"] BAll, ["bounded","primvec"] BU64, ["bounded"] BP, ["bounded"] B0,
+        ["bounded","primvec","L=8","elem=u8"] B8, ["bounded","TS=64","elem=vecu8"] B8T, ["bounded","ES=5","elem=string"] B8E, ["bounded","L=4","TS=40","ES=16","elem=string"] BAll, ["bounded","primvec","L=3","TS=24","ES=8","elem=u64"] BU64, ["bounded","L=5","ES=10","elem=principal"] BP, ["bounded","L=0","elem=u64"] B0,
         // derived
         ["derived"] S1, ["derived","big"] S2, ["derived","big","rename"] S3, ["derived"] Unit, ["derived"] EmptyRec, ["derived"] NewT, ["derived","big"] TupS,
         ["derived","generic"] Gen<u8, String>, ["derived","generic","big"] Gen<Nat, Int>, ["derived","generic","map"] Gen<BTreeMap<String, Nat>, Vec<u8>>, ["derived","generic"] Gen<S1, Gen<u8, u8>>,
